@@ -342,6 +342,53 @@ def oracle(ctx, seeds=None):
         Jrn = Jr * compsc[None, :] / compsc[:, None]
         if not np.max(np.abs(Jn - Jrn)) <= 2e-4 * np.max(np.abs(Jrn)) + 1e-6 * S:
             res.fail(model + ':jacobian', "finite-difference Jacobian differs from the derivative by %r (max entry %r; non-dimensional entries, wave speed / cell size = %r)" % (float(np.max(np.abs(Jn - Jrn))), float(np.max(np.abs(Jrn))), S), dict(cfg=cfg))
+    # ---- gear through the driver: "starts with one Crank-Nicolson step of size dt and then follows the BDF2 recurrence" for EVERY
+    #      solve(): (a) also when a snapshot is requested strictly inside the first step (its side step is not the start of the
+    #      recurrence), (b) also for the second solve() on the same gear object (a new integration starts again with Crank-Nicolson)
+    for i in range(ctx.n(6, 40)):
+        model = ['conv', 'burgers', 'conv'][i % 3]
+        cfg = cfg1d.rand_config(rng, model=model, n=int(rng.integers(3, 7)), smooth=True, per=True, units=False, meshkind='uni',
+                                scheme=cfg1d.rand_scheme(rng, ['extrapol1', 'extrapol2']))
+        if model == 'burgers':
+            cfg['prim'] = [[float(x) for x in 2.0 + 0.4 * rng.uniform(-1, 1, cfg['n'])]]
+        ok, b_ = impl.guarded(cfg1d.build, cfg)
+        if not ok:
+            continue
+        mod, msh, disc, f = b_
+        cfl = float(rng.choice([0.5, 1.0, 3.0])); nst = int(rng.integers(2, 5)); frac = float(rng.uniform(0.2, 0.8))
+        def run():
+            dt = float(np.min(disc.calc_timestep(f, cfl)))
+            # reference by hand: CN step then BDF2 steps on a fresh object, no driver
+            s0 = impl.integ.gear(msh, disc); g = f.copy()
+            for _ in range(nst):
+                s0.step(g, float(np.min(disc.calc_timestep(g, cfl))))
+            sb = impl.integ.gear(msh, disc)
+            other = f.copy(); other.data = [d * 1.25 + 0.1 for d in other.data]
+            sb.solve(other, cfl * 0.5, stop={'maxit': 3})
+            b2 = sb.solve(f.copy(), cfl, stop={'maxit': nst})                                                                         # (b)
+            return g, None, b2[-1]
+        ok, out = impl.guarded(run)
+        res.case(('gear-driver', model, nst))
+        rp = dict(cfg=cfg, cfl=cfl, iterations=nst, kind='gear-driver')
+        if not ok:
+            if 'Singular matrix' in str(out):
+                res.count('skipped-singular-implicit-system'); continue
+            res.fail('gear:driver-raised', out, rp); continue
+        g, _, fb = out
+        # (a): the run with the early snapshot ends in the same state; its LAST result is the early snapshot, so re-run for the end state
+        ok2, enda = impl.guarded(lambda: (lambda s_, dt_: (s_.solve(f.copy(), cfl, [f.time + frac * dt_], stop={'maxit': nst, 'tottime': f.time + 1000.0 * nst * dt_}), s_.Qn.copy())[1])(impl.integ.gear(msh, disc), float(np.min(disc.calc_timestep(f, cfl)))))
+        sc = max(float(np.max(np.abs(d))) for d in g.data) + 1e-300
+        if not all(np.all(np.isfinite(d)) for d in g.data):
+            res.count('skipped-inadmissible'); continue
+        if ok2:
+            err = max(float(np.max(np.abs(x - y))) for x, y in zip(enda.data, g.data))
+            if not err <= 1e-8 * sc or abs(enda.time - g.time) > 1e-10 * abs(g.time):
+                res.fail('gear:start-with-early-snapshot', "gear.solve with a snapshot inside the first step: the state after %d iterations differs from Crank-Nicolson + BDF2 steps by %r (relative)" % (nst, err / sc), rp)
+        else:
+            res.fail('gear:driver-raised', enda, rp)
+        err = max(float(np.max(np.abs(x - y))) for x, y in zip(fb.data, g.data))
+        if not err <= 1e-8 * sc or abs(fb.time - g.time) > 1e-10 * abs(g.time):
+            res.fail('gear:second-solve', "the second solve() on one gear object (after a solve of other data at another CFL): the state after %d iterations differs from Crank-Nicolson + BDF2 steps by %r (relative)" % (nst, err / sc), rp)
     return res
 
 
